@@ -9,7 +9,7 @@
 (*   toasty/pipeline/djangoplicity.py  DjangoplicityImageSource.query_candidates: page_num = 1, 2, ...;   *)
 (*                                     GET <base>archive/search/<page>/<n>/?type=Observation; 404 = done;  *)
 (*                                     the lines between "var images = [" and "];" parsed as YAML; one     *)
-(*                                     candidate per item                         -> Request / Scan       *)
+(*                                     candidate per item           -> Request (lines: FeedScan.tla)      *)
 (*                                     DjangoplicityCandidateInput.get_unique_id / save                    *)
 (*   toasty/pipeline/astropix.py       AstroPixImageSource.query_candidates: ONE GET of the configured     *)
 (*                                     query, the whole JSON array; AstroPixCandidateInput.__init__ /      *)
@@ -242,7 +242,7 @@ RejectsOnlyRefused == /\ \A u \in st.r : \E e \in known : NotActionable(e) /\ Ui
                       /\ Handler = "aborts" => st.r = {}
 \* (11) the deviations are taken exactly where they are said to be
 DeviationsWhereNamed == /\ ("RejectAborts" \in st.acts => Handler = "aborts" /\ Flavour = "astropix")
-                        /\ ("MalformedLeavesEmpty" \in st.acts => \E u \in Uids : st.c[u].ex /\ ~st.c[u].full)
+                        /\ ((\E u \in Uids : st.c[u].ex /\ ~st.c[u].full) => "MalformedLeavesEmpty" \in st.acts)
                         /\ (Flavour = "djangoplicity" => st.acts = {})
 
 \* ---- ideal statements the code does not keep (negative controls)
@@ -261,28 +261,4 @@ Ideals == [NotActionableIsSkipped |-> NotActionableIsSkipped, NoEmptyCandidate |
            NeverMisses |-> NeverMisses, SeesFinalFeed |-> SeesFinalFeed, OneFilePerEntry |-> OneFilePerEntry,
            EligibleSurviveBadNeighbours |-> EligibleSurviveBadNeighbours]
 
-\* ================================================================================================ the page scanner
-\* DjangoplicityImageSource.query_candidates reads the HTML line by line.  A page is a sequence of line classes:
-\*   "O" any other line, "V" a line containing `var images = [`, "I" an item line, "C" a line containing `];`
-\* The first line is read and dropped unconditionally; then: nothing collected yet -> wait for V; collecting -> C ends it, any other
-\* line is collected.  Result: "nodata" (the Exception 'no "var images" data found'), "open" (V seen, no C: the YAML text has no
-\* closing bracket), or the collected item positions.
-RECURSIVE ScanFrom(_, _, _, _)
-ScanFrom(lines, k, collecting, acc) ==
-    IF k > Len(lines) THEN (IF collecting THEN [res |-> "open", items |-> acc] ELSE [res |-> "nodata", items |-> <<>>])
-    ELSE IF ~collecting THEN ScanFrom(lines, k + 1, lines[k] = "V", acc)
-    ELSE IF lines[k] = "C" THEN [res |-> "items", items |-> acc]
-    ELSE ScanFrom(lines, k + 1, TRUE, Append(acc, k))
-Scan(lines) == ScanFrom(lines, 2, FALSE, <<>>)
-\* the layout the code is written for: some other first line, one V, items only, one C, anything but V / C around it
-WellFormed(lines) == \E a \in 2..Len(lines), b \in 2..Len(lines) :
-                        /\ a < b /\ lines[a] = "V" /\ lines[b] = "C"
-                        /\ \A k \in 1..(a - 1) : lines[k] = "O"
-                        /\ \A k \in (a + 1)..(b - 1) : lines[k] = "I"
-                        /\ \A k \in (b + 1)..Len(lines) : lines[k] = "O"
-ItemsOf(lines) == SelectSeq([k \in 1..Len(lines) |-> k], LAMBDA k : lines[k] = "I")
-\* theorem: a well-formed page yields exactly its items, in order
-ScanWellFormed(lines) == WellFormed(lines) => Scan(lines) = [res |-> "items", items |-> ItemsOf(lines)]
-\* ideal (refuted: FirstLineDropped - a V on the first line is not seen)
-ScanFindsAnyBlock(lines) == (\E k \in DOMAIN lines : lines[k] = "V") => Scan(lines).res # "nodata"
 =============================================================================
